@@ -184,6 +184,10 @@ def gen_consts(repo):
     load_ok = 0 <= ld.find(".lock()") < ld.find(".get(&self)") < ld.find(".cloned()")
     rm = fns["remove"]
     remove_ok = 0 <= rm.find(".lock()") < rm.find(".remove(&self)")
+    # the list of handles is resolved entry by entry with the single-handle load (and touches the store in no other way)
+    m_list = re.search(r"impl AnoncredsObjectList \{(.*?)\n\}", obj, re.S)
+    list_body = m_list.group(1) if m_list else ""
+    list_load_ok = re.search(r"handles\s*\.iter\(\)\s*\.map\(\|h\| ObjectHandle::load\(\*h\)\)\s*\.collect::<Result<_>>\(\)\?", list_body) is not None and "FFI_OBJECTS" not in list_body
     single_lock = len(re.findall(r"pub static FFI_OBJECTS\s*:\s*Lazy<Mutex<BTreeMap<ObjectHandle,\s*AnoncredsObject>>>", obj)) == 1 and obj.count("FFI_OBJECTS") == 1 + obj.count("FFI_OBJECTS\n            .lock()") + obj.count("FFI_OBJECTS\n                    .lock()")
     body = HEADER
     b = lambda x: "true" if x else "false"
@@ -192,6 +196,7 @@ def gen_consts(repo):
     body += f"Definition gen_store_load_locked_get_cloned : bool := {b(load_ok)}.\n"
     body += f"Definition gen_store_remove_locked_remove : bool := {b(remove_ok)}.\n"
     body += f"Definition gen_store_single_lock : bool := {b(single_lock)}.\n"
+    body += f"Definition gen_store_list_load_entrywise : bool := {b(list_load_ok)}.\n"
     body += f"Definition gen_tails_blob_tag_sz : Z := {tag_sz}%Z.\n"
     body += "Definition gen_tails_version : list Z := [" + "; ".join(v + "%Z" for v in ver) + "].\n"
     body += f"Definition gen_tails_disarm_before_rename : bool := {'true' if disarm_before else 'false'}.\n"
